@@ -579,6 +579,113 @@ def real_trees(R, rng, n, tree_kind, given=None):
                             case, n, {"impl": v, "direct": vd, "step": step})
 
 
+# ----------------------------------------------------------------------------- GMRF with covariates: every spelling of the table
+def covariate_ref(case):
+    """(value, scale, residual): documented density (N-1)/2 log tau - tau/2 (x - Z beta)' K (x - Z beta) - (N-1)/2 log 2 pi, K the
+    first-difference structure matrix, i.e. the sum of squared first differences of the residual x - Z beta — exact rationals"""
+    x, Z, b = case["field"], case["Z"], case["beta"]
+    r = [xi - sum(F(zij) * bj for zij, bj in zip(row, b)) for xi, row in zip(x, Z)]
+    S = sum((a - c) ** 2 for a, c in zip(r, r[1:]))
+    d = len(x) - 1
+    tau = float(case["tau"])
+    return d / 2 * math.log(tau) - tau * float(S) / 2 - d / 2 * LOG2PI, abs(d / 2 * math.log(tau)) + tau * float(S) / 2 + d, r
+
+
+def covariate_routes(R, rng, N, P, given=None):
+    """GMRFCovariate: one table Z [N, P] (N time points, P covariates; non-symmetric, beta != 0), every SPELLING of it and
+    of beta — keyword/positional constructor, `from_json` with the table inline (floats; integer literals when integral),
+    as a Parameter (dtype float64, short and full type name), as a reference to a Parameter defined beforehand; square
+    P == N, P = 1, N = 2, P > N — all must give the documented quadratic form around Z beta. Spellings the unchanged code
+    rejects (a flat list, a Parameter whose dtype differs from the field's) are recorded; if accepted they are held to the
+    documented meaning ([N] = one covariate)."""
+    import torch
+    from torchtree import Parameter
+    from torchtree.core.utils import process_object
+    from torchtree.distributions.gmrf import GMRFCovariate
+
+    ck = R.ck
+    if given is None:
+        integral = rng.random() < 0.5
+        for _try in range(100):
+            Z = [[F(rng.randint(-6, 6)) if integral else G.dy(rng, -4, 4, 2) for _ in range(P)] for _ in range(N)]
+            if P == 1 or N == 1 or any(Z[i][j] != Z[j][i] for i in range(min(N, P)) for j in range(min(N, P))):
+                break
+        beta = [G.dy(rng, -2, 2, 2) or F(1, 2) for _ in range(P)]
+        case = {"what": "gmrf-covariate", "field": [G.dy(rng, -4, 4, 3) for _ in range(N)], "tau": G.pow2(rng, -3, 3), "beta": beta, "Z": [list(r) for r in Z]}
+    else:
+        case = given
+        Z, beta = case["Z"], case["beta"]
+        N, P = len(Z), len(Z[0])
+        integral = all(v.denominator == 1 for r in Z for v in r)
+    want, scale, resid = covariate_ref(case)
+    Zf = [[float(v) for v in r] for r in Z]
+
+    def par(id_, values, type_="Parameter", dtype="torch.float64"):
+        d = {"id": id_, "type": type_, "tensor": values}
+        if dtype:
+            d["dtype"] = dtype
+        return d
+
+    def doc(cov, beta_spelling=None, type_="GMRFCovariate"):
+        return {"id": "g", "type": type_, "field": par("x", [float(v) for v in case["field"]]), "precision": par("tau", [float(case["tau"])]),
+                "covariates": cov, "beta": beta_spelling or par("beta", [float(v) for v in beta])}
+
+    def tensors():
+        return (Parameter("x", T(case["field"])), Parameter("tau", T([case["tau"]])), Parameter("Z", torch.tensor(Zf, dtype=torch.float64)),
+                Parameter("beta", T(beta)))
+
+    routes = {
+        "constructor/positional": lambda: GMRFCovariate("g", *tensors()),
+        "constructor/keyword": lambda: (lambda x, t, z, b: GMRFCovariate(id_="g", field=x, precision=t, covariates=z, beta=b))(*tensors()),
+        "json/inline-list-of-floats": lambda: process_object(doc(copy.deepcopy(Zf)), {}),
+        "json/inline-list/from_json": lambda: GMRFCovariate.from_json(doc(copy.deepcopy(Zf)), {}),
+        "json/inline-list/full-type": lambda: process_object(doc(copy.deepcopy(Zf), type_="torchtree.distributions.gmrf.GMRFCovariate"), {}),
+        "json/parameter/dtype=float64": lambda: process_object(doc(par("Z", copy.deepcopy(Zf))), {}),
+        "json/parameter/full-type": lambda: process_object(doc(par("Z", copy.deepcopy(Zf), type_="torchtree.Parameter")), {}),
+    }
+    if integral:
+        routes["json/inline-list-of-integer-literals"] = lambda: process_object(doc([[int(v) for v in r] for r in Z]), {})
+        routes["json/parameter/integer-literals/dtype=float64"] = lambda: process_object(doc(par("Z", [[int(v) for v in r] for r in Z])), {})
+
+    def referenced():
+        dic = {}
+        process_object(par("Z", copy.deepcopy(Zf)), dic)
+        process_object(par("beta", [float(v) for v in beta]), dic)
+        return process_object(doc("Z", "beta"), dic)
+
+    routes["json/references"] = referenced
+    optional = {"json/parameter/no-dtype": lambda: process_object(doc(par("Z", copy.deepcopy(Zf), dtype=None)), {})}
+    if P == 1:
+        optional["json/flat-list"] = lambda: process_object(doc([r[0] for r in Zf]), {})
+    shape = "square" if P == N else "P=1" if P == 1 else "P>N" if P > N else "P<N"
+    for name, f in list(routes.items()) + list(optional.items()):
+        ck.case(key=("gmrf-cov", name, N, P, tuple(case["field"]), tuple(tuple(r) for r in Z)), bucket=f"covariate-route/{shape}/{name}")
+        try:
+            v = _scalar(f()())
+        except Exception as e:
+            if name in optional:
+                ck.bucket(f"covariate-route/rejected/{name}:{type(e).__name__}")
+                continue
+            R.violation("GMRFCovariate:route:raises", f"GMRFCovariate (N={N}, P={P}) through {name} raises {type(e).__name__}: {str(e)[:120]}", case, N * P, {"route": name})
+            continue
+        if v is None or not close(v, want, 1e-10, scale):
+            R.violation("GMRFCovariate:route:value",
+                        f"GMRFCovariate (N={N} time points, P={P} covariates) through {name} evaluates to {v!r}; documented quadratic form around Z beta {want!r}",
+                        case, N * P, {"route": name, "impl": v, "reference": want})
+    # the Lean model: the quadratic form of the plain structure at the residual x - Z beta (exact)
+    if R.drv is not None and given is None:
+        from c20 import Qx, fr
+
+        rep = R.drv.ask(f"quad Q P {fr(case['tau'])} | {Qx(resid)}")
+        if rep == "bad-op":
+            ck.mismatch("model answered bad-op (covariate residual)", {"case": enc(case)})
+        else:
+            s_model, q_model = [F(v) for v in rep.split()]
+            S = sum((a - c) ** 2 for a, c in zip(resid, resid[1:]))
+            if s_model != q_model or q_model != F(case["tau"]) * S:
+                ck.mismatch("model: quadratic form at the residual x - Z beta differs from tau x sum of squared differences", {"case": enc(case)})
+
+
 def json_key(v):
     return repr(v)
 
@@ -706,6 +813,11 @@ def run(R, rng, ck):
     for n in ([2, 3, 5, 9] if not ck.thorough() else [2, 3, 4, 5, 7, 9, 14, 25]):
         for tk in REAL_TREES:
             R.guard("real_trees", real_trees, R, rng, n, tk)
+    shapes = [(2, 2), (3, 3), (5, 5), (2, 1), (4, 1), (2, 3), (5, 2)] if not ck.thorough() else [(2, 2), (3, 3), (4, 4), (5, 5), (8, 8), (2, 1), (3, 1), (7, 1),
+                                                                                                   (2, 3), (3, 5), (5, 2), (9, 3), (12, 12)]
+    for N, P in shapes:
+        for _ in range(2):
+            R.guard("covariate_routes", covariate_routes, R, rng, N, P)
     for mode in ("P", "W", "T0", "T1"):
         R.guard("gmrf_batches", gmrf_batches, R, rng, mode)
     R.guard("gmrf_special_and_failures", gmrf_special_and_failures, R, rng)
